@@ -146,6 +146,20 @@ namespace via
         return false;
     }
 
+    /// Set the HTTP version of a response to the version of the request.
+    /// Note: if the request line has not been read (e.g. in the response to
+    /// an invalid request) the response keeps its default version: HTTP/1.1.
+    /// @param response the response.
+    void set_version(http::tx_response& response) const
+    {
+      if ((rx_.request().major_version() != 0) &&
+          (rx_.request().minor_version() != 0))
+      {
+        response.set_major_version(rx_.request().major_version());
+        response.set_minor_version(rx_.request().minor_version());
+      }
+    }
+
     /// Send buffers on the connection.
     /// @param buffers the data to write.
     /// @param is_continue whether this is a 100 Continue response
@@ -251,8 +265,7 @@ namespace via
     bool send_response()
     {
       http::tx_response response(rx_.response_code());
-      response.set_major_version(rx_.request().major_version());
-      response.set_minor_version(rx_.request().minor_version());
+      set_version(response);
       tx_header_ = response.message();
 
       return send(comms::ConstBuffers(1, ASIO::buffer(tx_header_)),
@@ -268,8 +281,7 @@ namespace via
       if (!response.is_valid())
         return false;
 
-      response.set_major_version(rx_.request().major_version());
-      response.set_minor_version(rx_.request().minor_version());
+      set_version(response);
       tx_header_ = response.message();
 
       return send(comms::ConstBuffers(1, ASIO::buffer(tx_header_)),
@@ -286,8 +298,7 @@ namespace via
       if (!response.is_valid())
         return false;
 
-      response.set_major_version(rx_.request().major_version());
-      response.set_minor_version(rx_.request().minor_version());
+      set_version(response);
       tx_header_ = response.message(body.size());
       comms::ConstBuffers buffers(1, ASIO::buffer(tx_header_));
 
@@ -319,8 +330,7 @@ namespace via
       if (rx_.is_head())
         buffers.clear();
 
-      response.set_major_version(rx_.request().major_version());
-      response.set_minor_version(rx_.request().minor_version());
+      set_version(response);
       tx_header_ = response.message(size);
       buffers.push_front(ASIO::buffer(tx_header_));
 
